@@ -42,8 +42,16 @@ def label_node_contract(node, addr):
     """LabelNode.pc_after defines the label as the current address (symbol and label table of the current scope) and does
     not advance; emit produces nothing."""
     scope = node.resolver.current_scope
+    enclosing = []
+    e = scope.parent
+    while e is not None:
+        enclosing.append((e, dict(e.symbols), dict(e.labels)))
+        e = e.parent
     r = node.pc_after(addr)
     check("label_is_current_address", scope.symbols[node.symbol_name] == addr.logical_value and scope.labels[node.symbol_name] == addr.logical_value)
+    # ... of the current scope ONLY: an enclosing scope (a named one included) that has a label of the same name keeps its own
+    for e, syms, labels in enclosing:
+        check("enclosing_scopes_untouched", dict(e.symbols) == syms and dict(e.labels) == labels)
     check("address_not_advanced", r is addr)
     check("emits_nothing", node.emit(addr) == b"")
 
